@@ -3,7 +3,7 @@
 (*  edges     (cfg with VIEW): one shortest history per (state, operation)  *)
 (*  simulate  (tlc -simulate): random walks of length Depth                 *)
 EXTENDS KV, TLC, Json, IOUtils
-VARIABLE hist
+VARIABLES hist, pre   \* pre: the model state before the last operation (edge cover is per SOURCE state)
 
 MCKeys == {<<97>>, <<97,45>>, <<97,98>>, <<98>>, <<98,97>>}
 MCVals == {1, 2}
@@ -15,13 +15,14 @@ Op(r) == IF r.op = "iter" THEN [op |-> "iter", p |-> r.p, kind |-> r.kind, at |-
          ELSE IF r.op = "put" THEN [op |-> "put", k |-> r.k, v |-> r.v, enc |-> IF r.v = 2 THEN "bin" ELSE "json"]
          ELSE r
 
-GInit == Init /\ hist = <<>>
+GInit == Init /\ hist = <<>> /\ pre = Empty
 GNext == /\ Len(hist) < Depth
          /\ Next
          /\ hist' = Append(hist, Op(res'))
-GSpec == GInit /\ [][GNext]_<<vars, hist>>
+         /\ pre' = m
+GSpec == GInit /\ [][GNext]_<<vars, hist, pre>>
 
-EdgeView == <<m, res>>
+EdgeView == <<pre, m, res>>
 
 \* every reached state prints its history (edges mode: prefixes are removed by the orchestrator)
 EmitAll  == hist # <<>> => PrintT(<<"SCN", ToJson(hist)>>)
